@@ -9,13 +9,14 @@ import numpy as np
 
 from . import core, findlib
 
-# elements that occur in NO search pattern of findlib.PATTERNS: inserted atoms can never create a new occurrence
+# elements for inserted atoms; the ones occurring in the search pattern at hand are excluded, so that inserted atoms
+# can never create a new occurrence and never coincide (element + place) with a search atom
 NEW_ELEMS = ["S", "P", "Si", "Zr", "Cu", "Zn"]
 
 COLLINEAR = {"single", "pair", "pair_same", "collinear3", "collinear_asym"}
 SYMMETRIC = {"pair_same", "collinear3", "bent", "ch3", "planar4"}
 
-RP_KINDS = ["keep_all+far", "keep_some+new", "all_new", "subst", "on_axis", "keep_all+far", "all_new"]
+RP_KINDS = ["keep_all+far", "keep_some+new", "all_new", "subst", "on_axis", "keep_all+far", "all_new", "nudged"]
 
 
 def dyad(rng, lo, hi, den=16):
@@ -43,7 +44,7 @@ def build_replacement(rng, pel, ppos, kind):
     els, pos, shared = [], [], []
 
     def new_atom(at):
-        els.append(rng.choice(NEW_ELEMS))
+        els.append(rng.choice([e for e in NEW_ELEMS if e not in pel]))
         pos.append([float(x) for x in at])
         shared.append(None)
 
@@ -67,6 +68,20 @@ def build_replacement(rng, pel, ppos, kind):
             new_atom(ppos[0])            # exactly on the first search atom, different element: inserted AT the match
         for _ in range(rng.randint(1, 3)):
             new_atom(cen + np.array(far_vector(rng, 1.0, 9.0)))
+    elif kind == "nudged":
+        # every search atom kept, except one that is re-placed 0.02–0.09 Å away with the SAME element: not the same atom
+        # (find_unchanged_atom_pairs: closer than 1e-5), so the old one is removed and the new one inserted
+        k = rng.randrange(n)
+        for j in range(n):
+            if j == k:
+                v = np.array([rng.uniform(-1, 1) for _ in range(3)])
+                v = v / max(np.linalg.norm(v), 1e-9) * rng.uniform(0.02, 0.09)
+                els.append(pel[j]); pos.append([float(ppos[j][i] + round(float(v[i]) * 1024) / 1024) for i in range(3)])
+                shared.append(None)
+            else:
+                els.append(pel[j]); pos.append(list(ppos[j])); shared.append(j)
+        if rng.random() < 0.5:
+            new_atom(cen + np.array(far_vector(rng)))
     elif kind == "subst":
         k = rng.randrange(n)
         for j in range(n):
@@ -113,16 +128,58 @@ def pattern_atoms_json(els, pos, charges=None):
 
 
 def make_case(rng, tier="quick", cell_kind=None, pname=None, boundary="default", replace_all=None, rp_kind=None,
-              atol=None, ncopies=None):
+              atol=None, ncopies=None, distort=None, fmax=0.6, exact=None, hints="auto"):
+    """distort: None = in ~45 % of the cases use a NON-default tolerance (0.1, 0.2 or 0.01) and distort the planted copies
+    by up to fmax·atol (one atom by f·atol, or every atom by f·atol/2, f in [0.25, fmax]); for atol = 0.01 some copies
+    are distorted BEYOND the tolerance (2–4·atol: not occurrences at that tolerance, but within the default 0.05)"""
     pname = pname or rng.choice(list(findlib.PATTERNS))
     cell_kind = cell_kind or rng.choice(["ortho", "tri+", "tri-", "rot", "tri+", "tri-"])
     if boundary == "default":
         boundary = rng.choice([None, True, "corner", "corner"])
+    # exact: unperturbed copies turned by exactly 180° about a coordinate axis (pattern axis and copy axis exactly
+    # antiparallel — the branch of the rotation helper that needs an arbitrary perpendicular axis)
+    if exact is None:
+        exact = distort is None and rng.random() < 0.12
+    if exact:
+        distort = False
+    if pname.split("@")[0] == "pair_same" and atol is None:
+        # C–C 1.5 Å with copies only 1.6 Å apart: a wide tolerance or distorted copies would make atoms of DIFFERENT copies
+        # match each other (overlapping occurrences are refused by the code — property C07, not this one)
+        distort = False
+        atol = rng.choice([0.05, 0.02])
+    if distort is None:
+        distort = atol is None and rng.random() < 0.45
+    if distort and atol is None:
+        atol = rng.choice([0.1, 0.2, 0.2, 0.01])
     atol = atol if atol is not None else rng.choice([0.05, 0.05, 0.02, 0.1])
     case = findlib.planted_structure(rng, pname=pname, cell_kind=cell_kind, atol=atol, boundary=boundary,
                                      ncopies=ncopies if ncopies is not None else rng.randint(1, 3),
-                                     decoys=rng.random() < 0.5)
+                                     decoys=rng.random() < 0.5, **({"pose": "axis180", "perturb": False} if exact else {}))
     n = len(case["elems"])
+    dist_info = "none"
+    if distort and case["planted"]:
+        cellf = np.array(case["cell"], dtype=float)
+        cinv = np.linalg.inv(cellf)
+        pos = np.array(case["pos"], dtype=float)
+        modes = []
+        for grp in case["planted"]:
+            f = rng.uniform(0.25, max(0.25, fmax))
+            mode = rng.choice(["one", "all"])
+            if atol < 0.02 and rng.random() < 0.5:
+                mode, f = "beyond", rng.uniform(2.0, 4.0)
+            who = [rng.choice(grp)] if mode in ("one", "beyond") else list(grp)
+            amp = f * atol if mode in ("one", "beyond") else f * atol / 2
+            for i in who:
+                v = np.array([rng.uniform(-1, 1) for _ in range(3)])
+                nv = np.linalg.norm(v)
+                if nv < 1e-3:
+                    continue
+                pos[i] = pos[i] + v / nv * amp * rng.uniform(0.6, 1.0)
+            modes.append(mode)
+        fr = pos.dot(cinv) % 1.0
+        fr[fr >= 1.0] = 0.0
+        case["pos"] = [[float(x) for x in row] for row in fr.dot(cellf)]
+        dist_info = "+".join(sorted(set(modes)))
     pel, ppos = case["pattern"]["elems"], case["pattern"]["pos"]
     # both patterns live in an arbitrary frame: the first search atom is generally NOT at the origin
     shift = [dyad(rng, -3, 3) for _ in range(3)] if rng.random() < 0.75 else [0.0, 0.0, 0.0]
@@ -142,10 +199,18 @@ def make_case(rng, tier="quick", cell_kind=None, pname=None, boundary="default",
         a["g"] = 7
     if replace_all is None:
         replace_all = rng.random() < 0.2
-    return {"op": "c05", "s": sj, "p": pj, "r": rj, "atol": atol, "replace_all": bool(replace_all),
+    if hints == "auto":
+        hints = (None, None, None)
+        if len(pel) >= 2 and rng.random() < 0.3:
+            h1 = rng.randrange(len(pel))
+            h2 = rng.choice([None] + [j for j in range(len(pel)) if j != h1])
+            hints = (h1, h2, None)
+    return {"op": "c05", "hints": list(hints), "s": sj, "p": pj, "r": rj, "atol": atol, "replace_all": bool(replace_all),
             "seed": rng.randrange(10 ** 6), "shared": shared, "tags": tags,
             "info": {"cell": cell_kind, "pattern": pname, "boundary": str(boundary), "rp": rp_kind,
-                     "copies": len(case["planted"]), "decoys": case["info"]["decoys"]}}
+                     "copies": len(case["planted"]), "decoys": case["info"]["decoys"], "atol": atol,
+                     "distorted": dist_info,
+                     "exact180": bool(exact)}}
 
 
 def rand_motion(rng, pure_translation=False):
